@@ -3,11 +3,12 @@
 R1 for the rules defined by a node map x = g(t) sampled at t = k h (TanhSinh, ExpSinh, LogExpSinh,
    ExpExp, SingleTanh, SingleExp, SingleArcSinhExp): the weights are h g'(t_k), i.e. the derivative
    of the nodes with respect to the (unit-step) index -- proved on algebraic normal forms (E8).
-R2 the polynomial Trefethen maps: _derg2 = _g2', _derg3 = _g3', and every Trefethen class pairs the
-   map it applies to the nodes with the derivative of the same map in the weights, at the same nodes.
+R2 the Trefethen maps: _derg2 = _g2', _derg3 = _g3', the interior branch of _dergstrip = d _gstrip / ds
+   (arcsin / exp / log generators), and every Trefethen class pairs the map it applies to the nodes
+   with the derivative of the same map in the weights, at the same nodes.
 
 NOT decided: exactness on polynomial classes, ordering, nodes inside the domain, the Gauss rules
-(numerical; no structural clause), the strip map _gstrip (arcsin branch handling).
+(numerical; no structural clause), the end-point branch of _dergstrip (a limit).
 """
 from __future__ import annotations
 
@@ -23,10 +24,10 @@ EXPLANATION = (
     "node k to be h g'(t_k).  The constructor of each such class is translated from its syntax tree "
     "into algebraic normal forms (E8: exp/log/hyperbolic generators, square roots) with the index "
     "array as the variable, and `weights == d(points)/dk` is proved as a polynomial identity for all "
-    "step sizes and all k at once.  The polynomial Trefethen maps are differentiated the same way and "
+    "step sizes and all k at once.  The Trefethen maps (two polynomials and the strip map) are differentiated the same way and "
     "every Trefethen class must pair a map with the derivative of the same map at the same nodes.  "
     "NOT decided: exactness on polynomial classes, ordering of nodes, the Gauss and Fejer rules.")
-RULE = "7 substitution rules x (weights = d nodes / d index); 2 map/derivative pairs; Trefethen classes x branches"
+RULE = "7 substitution rules x (weights = d nodes / d index); 3 map/derivative pairs; Trefethen classes x branches"
 
 SUBSTITUTION_RULES = ("TanhSinh", "ExpSinh", "LogExpSinh", "ExpExp", "SingleTanh", "SingleExp", "SingleArcSinhExp")
 MAP_PAIRS = (("_g2", "_derg2"), ("_g3", "_derg3"))
@@ -135,6 +136,8 @@ def rule_r2(rep, repo):
             rep.violation("R2.map-derivative-pair", f"onedgrid.{dg}", g,
                           f"{dg} is not the derivative of {g}: d {g}/dx = {alg.show(alg.D(G), 120)} but {dg} returns "
                           f"{alg.show(Dg, 120)}", fd.loc())
+    # the strip map: _dergstrip (its interior branch) is the derivative of _gstrip with respect to s
+    rep.attempt(_strip_pair, rep, repo)
     # every Trefethen class applies a map to the nodes and the derivative of the same map to the weights
     pair_of = dict(MAP_PAIRS)
     pair_of["_gstrip"] = "_dergstrip"
@@ -173,6 +176,71 @@ def rule_r2(rep, repo):
                               f"`{norm(wv)[:80]}`: they must be {want}({', '.join(args)}) times the weights of the "
                               f"underlying rule", repo.rel("onedgrid", wv))
     rep.floor("Trefethen map applications", n, 8)
+
+
+def _strip_pair(rep, repo):
+    import sympy as sp
+    from gridlint import e8
+    fg, fd = repo.module_func("onedgrid", "_gstrip"), repo.module_func("onedgrid", "_dergstrip")
+    alg = e8.Algebra("s")
+    rho = alg.param("rho")
+    alg.ref = {alg.x: sp.Rational(1, 3), rho: sp.Rational(7, 5), alg.param("pi"): sp.pi}
+    F = e8.Formula(repo, None, alg)
+    try:
+        G = alg.nf(F.body(strip_docstring(fg.node.body), {fg.params[0]: rho, fg.params[1]: alg.x}, 0, fg))
+    except e8.Undecided as e:
+        raise AnalysisError(f"_gstrip outside the closed-form fragment: {e}") from e
+    # _dergstrip: end points (|s| = 1) are treated separately by a mask; the interior branch is the
+    # store under the *negated* end-point mask
+    env = {fd.params[0]: rho, fd.params[1]: alg.x}
+    masks = {}
+    interior = None
+    import copy
+
+    class Strip(ast.NodeTransformer):
+        def visit_Subscript(self, n):
+            if isinstance(n.slice, ast.Name) and n.slice.id in masks:
+                return self.visit(n.value)
+            return self.generic_visit(n)
+    for st in strip_docstring(fd.node.body):
+        if isinstance(st, ast.Assign) and isinstance(st.targets[0], ast.Name):
+            v = st.value
+            if isinstance(v, ast.Call) and norm(v.func) in ("np.isclose", "np.equal"):
+                masks[st.targets[0].id] = "end"
+                continue
+            if isinstance(v, ast.Compare) and isinstance(v.left, ast.Name) and v.left.id in masks and \
+                    isinstance(v.ops[0], ast.Eq) and norm(v.comparators[0]) in ("0", "False"):
+                masks[st.targets[0].id] = "interior" if masks[v.left.id] == "end" else "end"
+                continue
+            if isinstance(v, ast.UnaryOp) and isinstance(v.op, (ast.Invert, ast.Not)) and isinstance(v.operand, ast.Name) \
+                    and v.operand.id in masks:
+                masks[st.targets[0].id] = "interior" if masks[v.operand.id] == "end" else "end"
+                continue
+            if isinstance(v, ast.Call) and norm(v.func) in ("np.zeros", "np.empty", "np.zeros_like", "np.empty_like"):
+                continue
+            try:
+                env[st.targets[0].id] = F.ev(Strip().visit(copy.deepcopy(v)), env, 0)
+            except e8.Undecided as e:
+                raise AnalysisError(f"_dergstrip outside the closed-form fragment: {e}") from e
+        elif isinstance(st, ast.Assign) and isinstance(st.targets[0], ast.Subscript) and \
+                isinstance(st.targets[0].slice, ast.Name) and masks.get(st.targets[0].slice.id) == "interior":
+            try:
+                interior = F.ev(ast.fix_missing_locations(Strip().visit(copy.deepcopy(st.value))), env, 0)
+            except e8.Undecided as e:
+                raise AnalysisError(f"_dergstrip outside the closed-form fragment: {e}") from e
+    if interior is None:
+        raise AnalysisError("unrecognised idiom: _dergstrip has no interior branch stored under the negated end-point mask")
+    Dg = alg.nf(interior)
+    if alg.zero(alg.D(G) - Dg):
+        rep.ok("R2.map-derivative-pair", "onedgrid._dergstrip = d _gstrip (interior)", fd.loc(), alg.show(Dg, 100))
+    else:
+        w = e8.witness(alg, alg.D(G), Dg, [alg.ref, {alg.x: sp.Rational(-3, 5), rho: sp.Rational(9, 4), alg.param("pi"): sp.pi}])
+        if w is None:
+            raise AnalysisError("cannot decide whether _dergstrip is the derivative of _gstrip")
+        rep.violation("R2.map-derivative-pair", "onedgrid._dergstrip", "_gstrip",
+                      f"the interior branch of _dergstrip is not the derivative of _gstrip: at "
+                      f"{e8.show_point({k_: v_ for k_, v_ in w[0].items() if str(k_) != 'pi'})} d _gstrip/ds = "
+                      f"{sp.N(w[1], 12)} but _dergstrip returns {sp.N(w[2], 12)}", fd.loc())
 
 
 def run(tier="quick", root="/repo", evidence_dir=None, quiet=False):
